@@ -124,6 +124,10 @@ def RK (s : SeqState) (r : Raw) : Prop := SK s r.st
 
 theorem RK_fail {s : SeqState} (hi : SeqInv s) (e : Err) : RK s (fail s e) := SK.rfl' hi
 theorem RK_done {s s' : SeqState} (h : SK s s') : RK s (done s') := h
+theorem RK_orRollback {s : SeqState} {r : Raw} (hi : SeqInv s) (h : RK s r) : RK s (r.orRollback s) := by
+  rcases Raw.orRollback_cases r s with e | ⟨e, he⟩
+  · rw [e]; exact h
+  · rw [he]; exact RK_fail hi _
 
 theorem RK_withChan {s : SeqState} {n : ChName} {f : ChanState → CRes} (hi : SeqInv s)
     (hf : ∀ c, s.getChan n = some c → ChanInv s.dev.maxSeqDur c →
@@ -358,8 +362,8 @@ theorem stepRaw_RK {s : SeqState} (hd : DevOk s.dev) (hi : SeqInv s) (op : Op) :
               split
               · exact addChannel_SK hi (hfc _) freshChan_lpc
               · split
-                · exact SK.trans (addChannel_SK hi (hfc _) freshChan_lpc)
-                    (RK_targetCore (addChannel_SG hi (hfc _)).1 _ _)
+                · exact RK_orRollback hi (SK.trans (addChannel_SK hi (hfc _) freshChan_lpc)
+                    (RK_targetCore (addChannel_SG hi (hfc _)).1 _ _))
                 · exact addChannel_SK hi (hfc _) freshChan_lpc
   | configDetMap dmmId maxW sumW =>
     simp only [stepRaw]
